@@ -91,3 +91,19 @@ def compose(rng, rel=None):
     elif rng.random() < 0.2:
         final = True          # 'final' without a label: not stored (documented normalisation)
     return {"id": cid, "type": ctype, "date": date, "respin": respin, "label": label, "final": final}
+
+
+# values thrown at EVERY field locator in addition to the field-specific complements; the reference model's
+# validity predicate decides for each whether the object is still valid, invalid or unspecified
+GENERIC_BAD = [None, "", 0, 1, 0.0, 1.5, [], {}, "x", True, False, ["a"]]
+
+
+def with_generic(bads):
+    import json
+    out, seen = [], set()
+    for b in list(bads) + GENERIC_BAD:
+        k = json.dumps(b, sort_keys=True) + type(b).__name__
+        if k not in seen:
+            seen.add(k)
+            out.append(b)
+    return out
